@@ -1,6 +1,7 @@
 import YakModel.Proofs.VersionProofs
 import YakModel.Proto.VSys
 import YakModel.Proofs.VSysProofs
+import YakModel.Proofs.VersCheckProofs
 /-!
 # C17 — The node version word obeys the lock / dirty-bit / counter protocol
 
@@ -88,5 +89,34 @@ open Yak.Proto.VSys in
 /-- tightness of the bound: exactly 2^29 completions give equal stable versions. -/
 theorem equal_stable_wrap_witness (b : Body) :
     b.vinsert + BitVec.ofNat 29 (2^29) = b.vinsert := Yak.Proto.VSys.wrap_witness b
+
+/-! ### What the trace monitor's acceptance means (`yakmodel vers`, run on every traced schedule)
+
+The monitor classifies each successful compare-exchange the real code performed on a version word.
+An accepted transition did exactly what its class says — so a stale CAS retry that also reverts
+another thread's flag, or a lock bit written back by a non-owner, cannot be accepted. -/
+
+open Yak.VersCheck in
+theorem monitor_lock_step {o n : W} (h : classify o n = some .lock) :
+    (decode o).locked = false ∧ decode n = { decode o with locked := true } := classify_lock h
+
+open Yak.VersCheck in
+theorem monitor_unlock_step {o n : W} (h : classify o n = some .unlock) :
+    (decode o).locked = true ∧ decode n = (decode o).unlock := classify_unlock h
+
+open Yak.VersCheck in
+theorem monitor_flag_step {o n : W} (h : classify o n = some .flag) :
+    ∃ tf : Bool, decode n = { decode o with root := tf } ∨ decode n = { decode o with border := tf } ∨
+      decode n = { decode o with deleted := tf } ∨ decode n = { decode o with inserting := tf } ∨
+      decode n = { decode o with splitting := tf } := classify_flag h
+
+open Yak.VersCheck in
+theorem monitor_lock_bit {o n : W} {k : Kind} (h : classify o n = some k) (hk : k = .flag ∨ k = .same) :
+    (decode n).locked = (decode o).locked := lock_bit_changes_only_by_lock_unlock h hk
+
+/-- non-vacuity: the stale-retry transition of seeded change C09_m1 (deleted set, root lost) is
+    rejected, an honest `atomic_set_deleted` is accepted -/
+example : Yak.VersCheck.classify 0xc000000120000010#64 0xa000000120000010#64 = none := by decide
+example : Yak.VersCheck.classify 0xc000000120000010#64 0xe000000120000010#64 = some .flag := by decide
 
 end Yak.Props.C17
